@@ -99,10 +99,14 @@ def check_forwarding(rep: Report, rule: str, wrapper: Fn, wsig: Sig, app: Applic
     for wp in wparams:
         if wp in used:
             continue
-        guard_mentions = any(wp in {n.id for n in ast.walk(e) if isinstance(n, ast.Name)} for e, p in app.site.ctx.guards)
-        rep.ob(rule, wrapper, f"{cwhere} :: {wp} omitted", guard_mentions,
-               f"{what}: parameter `{wp}` is not forwarded on this return path and no guard on it dominates the return: "
-               f"the value given by the caller is silently dropped")
+        dflt = u(wsig.defaults.get(wp)) if wp in wsig.defaults else None
+        atoms_wp = [(e, p) for e, p in app.site.ctx.guards if wp in {n.id for n in ast.walk(e) if isinstance(n, ast.Name)}]
+        def is_default_test(e, p):
+            return dflt is not None and ((p and u(e) == f"{wp} is {dflt}") or ((not p) and u(e) == f"{wp} is not {dflt}"))
+        ok_omit = bool(atoms_wp) and all(is_default_test(e, p) for e, p in atoms_wp)
+        rep.ob(rule, wrapper, f"{cwhere} :: {wp} omitted", ok_omit,
+               f"{what}: parameter `{wp}` is not forwarded on this return path and the path is not decided by exactly "
+               f"`{wp} is {dflt}` (guards: {[u(e) for e, _ in atoms_wp]}): a value given by the caller is silently dropped")
     # callee parameters without default that were not passed
     for cp in csig.pos + csig.kwonly:
         if cp not in passed_callee and cp not in csig.defaults:
